@@ -496,3 +496,270 @@ def gen_named(rng, vw, nested=None):
     if r < 0.91:
         return (rng.choice(["and", "or"]), t, gen_bool(rng, vw, 1))
     return ("if", t, derive(rng, vw, v, 1), ("var", v))
+
+
+# ------------------------------------------------------------------------------------------------ stateful sequences through the backend
+# The backend keeps the converted object of every AST (Backend._object_cache, keyed by the AST's hash; is_true/is_false keep
+# their own tables): ONE StridedInterval object serves every expression an annotated variable occurs in, and every query of
+# it.  All other cases of this check convert an expression over fresh variables once, so anything the object remembers from
+# an earlier query is invisible.  A *sequence* is a list of items over the SAME variables, executed in order:
+#   (kind, tree, param)   kind = "abs" (convert; the abstract value must contain every value of the tree)
+#                                | "min" | "max" (param = signed) | "eval" (param = n) | "card" | "sol" (param = value)
+#                                | "is_true" | "is_false" | "has_true" | "has_false" (Boolean trees)
+# built as: query x -> query every derivation d(x) (unary operations, width changes, shifts/arithmetic by constants) -> query x
+# again -> the same two levels deep.  Oracle: the concrete values of the tree over every assignment (ev).  A failing item is
+# re-run alone over fresh variables: passing there = the failure depends on what was asked before (state-dependent).
+_SEQ_TAG = [0]
+
+
+def seq_apply(step, t):
+    k = step[0]
+    if k in ("zext", "sext"):
+        return (k, step[1], t)
+    if k == "extract":
+        return ("extract", step[1], step[2], t)
+    if k == "un":
+        return ("un", step[1], t)
+    if k == "binc":
+        c = ("const", step[2], step[3])
+        return ("bin", step[1], t, c) if step[4] == "r" else ("bin", step[1], c, t)
+    if k == "concat":
+        c = ("const", step[1], step[2])
+        return ("concat", t, c) if step[3] == "r" else ("concat", c, t)
+    raise ValueError(k)
+
+
+def seq_step_width(w, step):
+    k = step[0]
+    if k in ("zext", "sext"):
+        return w + step[1]
+    if k == "extract":
+        return step[1] - step[2] + 1
+    if k == "concat":
+        return w + step[2]
+    return w
+
+
+def seq_steps(rng, w):
+    out = [("un", "neg"), ("un", "not")]
+    for k in sorted({1, 2, w, rng.choice([3, 8, 16])}):
+        out += [("zext", k), ("sext", k)]
+    ex = {(w - 1, 0), (0, 0), (w - 1, w - 1)}
+    if w >= 2:
+        ex |= {(w - 1, 1), (w - 2, 0)}
+    out += [("extract", hi, lo) for hi, lo in sorted(ex)]
+    for op in ("shl", "lshr", "ashr"):
+        for c in sorted({1, max(1, w - 1)}):
+            out.append(("binc", op, c & M(w), w, "r"))
+    for op in rng.sample(["add", "sub", "mul", "and", "or", "xor"], 3):
+        out.append(("binc", op, rng.choice([1, M(w), 1 << (w - 1), rng.randrange(1 << w)]) & M(w), w, rng.choice("lr")))
+    out.append(("concat", rng.randrange(2), 1, rng.choice("lr")))
+    return out
+
+
+def seq_battery(rng, t, w, widths=(), light=False):
+    """the items put to the bit-vector term t (w bits)"""
+    half = 1 << (w - 1)
+    consts = {0, 1, M(w), half, half - 1, rng.randrange(1 << w)}
+    for a in widths:
+        if a < w:
+            consts |= {1 << (a - 1), M(a), 1 << a}
+    consts = sorted(c & M(w) for c in consts)
+    chosen = sorted({0} | set(rng.sample(consts, min(len(consts), 1 if light else 2))))
+    items = []
+    for c in chosen:
+        for op in CMP_OPS:
+            for tree in (("cmp", op, t, ("const", c, w)), ("cmp", op, ("const", c, w), t)):
+                r = rng.random()
+                items.append(("abs" if r < 0.7 else rng.choice(["is_true", "is_false", "has_true", "has_false"]), tree, None))
+    items.append(("abs", t, None))
+    for sg in (False, True):
+        items += [("min", t, sg), ("max", t, sg)]
+    items += [("eval", t, rng.choice([1, 2, 5, 300])), ("card", t, None), ("sol", t, rng.choice(consts)), ("sol", t, rng.randrange(1 << w))]
+    rng.shuffle(items)
+    return items
+
+
+def gen_sequences(rng, rand_anno, n_fan, n_deep):
+    """-> list of (annos, items, stream)"""
+    out = []
+    x = ("var", 0)
+    for i in range(n_fan):
+        w = rng.choice([1, 2, 2, 3, 3, 4, 4, 5, 6, 8, 8])
+        anno = rand_anno(rng, w, rng.random() < 0.9)
+        items = seq_battery(rng, x, w)
+        for s in seq_steps(rng, w):
+            items += seq_battery(rng, seq_apply(s, x), seq_step_width(w, s), widths=(w,), light=rng.random() < 0.5)
+        items += seq_battery(rng, x, w)
+        out.append(([anno], items, "seq-fan"))
+    for i in range(n_deep):
+        w = rng.choice([1, 2, 2, 3, 3, 4, 4, 5, 6, 8, 8])
+        anno = rand_anno(rng, w, rng.random() < 0.9)
+        s1 = rng.choice(seq_steps(rng, w)); w1 = seq_step_width(w, s1); y = seq_apply(s1, x)
+        s2 = rng.choice(seq_steps(rng, w1)); w2 = seq_step_width(w1, s2); z = seq_apply(s2, y)
+        first = seq_battery(rng, x, w)
+        if rng.random() < 0.4:
+            first = first[:rng.randrange(1, 4)]
+        items = first + seq_battery(rng, y, w1, widths=(w,), light=rng.random() < 0.3) + seq_battery(rng, z, w2, widths=(w, w1)) + \
+            seq_battery(rng, y, w1, widths=(w,), light=True) + seq_battery(rng, x, w, light=True)
+        out.append(([anno], items, "seq-deep"))
+    return out
+
+
+def seq_values(tree, annos, memo):
+    if tree not in memo:
+        vw = [a[0] for a in annos]
+        import itertools
+        vals = set()
+        for env in itertools.product(*[vsa.gamma(a) for a in annos]):
+            v = ev(tree, env, vw)
+            if v is not None:
+                vals.add(v)
+        memo[tree] = vals
+    return memo[tree]
+
+
+def seq_item_run(kind, e, param, w):
+    import claripy
+    b = claripy.backends.vsa
+    try:
+        if kind == "abs":
+            return abstract(e)
+        if kind == "min":
+            return ("val", b.min(e, signed=param))
+        if kind == "max":
+            return ("val", b.max(e, signed=param))
+        if kind == "eval":
+            return ("list", tuple(b.eval(e, param)))
+        if kind == "card":
+            return ("val", b.cardinality(e))
+        if kind == "sol":
+            return ("val", b.solution(e, claripy.BVV(param, w)))
+        return ("val", getattr(b, kind)(e))
+    except RecursionError:
+        return ("err", "RecursionError")
+    except Exception as ex:  # noqa
+        return ("err", type(ex).__name__)
+
+
+def seq_item_judge(kind, param, r, vals, w):
+    """-> None | (failure kind, detail)"""
+    if r == ("err", "ClaripyZeroDivisionError") or not vals:
+        return None
+    if r[0] == "err":
+        return ("err:" + r[1], "raises " + r[1])
+    if kind == "abs":
+        for v in sorted(vals, key=lambda z: (isinstance(z, bool), z)):
+            if not contains(r, v):
+                return ("unsound", "the value %r occurs and is not in the abstract value %s" % (v, r[1] if r[0] != "dsis" else r))
+        return None
+    x = r[1]
+    if kind in ("min", "max"):
+        sv = [sgn(v, w) for v in vals] if param else list(vals)
+        if not isinstance(x, int):
+            return ("malformed", "%s returns %r" % (kind, x))
+        if kind == "min" and x > min(sv):
+            return ("min-too-large", "min(signed=%s) = %d but the value %d occurs" % (param, x, min(sv)))
+        if kind == "max" and x < max(sv):
+            return ("max-too-small", "max(signed=%s) = %d but the value %d occurs" % (param, x, max(sv)))
+    elif kind == "eval":
+        if len(x) < param and any(v not in x for v in vals):
+            return ("eval-misses-value", "eval(%d) lists %d value(s) %r and misses %d" % (param, len(x), x[:6], min(v for v in vals if v not in x)))
+    elif kind == "card":
+        if not isinstance(x, int) or x < len(vals):
+            return ("cardinality-too-small", "cardinality = %r but %d different values occur" % (x, len(vals)))
+    elif kind == "sol":
+        if param in vals and x is not True:
+            return ("solution-false-for-a-value", "solution(%d) = %r but the value occurs" % (param, x))
+    elif kind == "is_true":
+        if x and False in vals:
+            return ("unsound", "is_true although False occurs")
+    elif kind == "is_false":
+        if x and True in vals:
+            return ("unsound", "is_false although True occurs")
+    elif kind == "has_true":
+        if not x and True in vals:
+            return ("unsound", "has_true is False although True occurs")
+    elif kind == "has_false":
+        if not x and False in vals:
+            return ("unsound", "has_false is False although False occurs")
+    return None
+
+
+def seq_run(annos, items, only_last=False):
+    """execute the items in order over ONE set of variables -> list of (index, failure kind, detail, observed)"""
+    _SEQ_TAG[0] += 1
+    xs = mk_vars(annos, "sq%d" % _SEQ_TAG[0])
+    vw = [a[0] for a in annos]
+    memo = {}
+    fails = []
+    for k, (kind, tree, param) in enumerate(items):
+        try:
+            e = build(tree, xs)
+        except Exception:  # noqa  (constant folding raises while building: exempt)
+            continue
+        w = None if is_bool(tree) else width(tree, vw)
+        r = seq_item_run(kind, e, param, w)
+        if only_last and k < len(items) - 1:
+            continue
+        bad = seq_item_judge(kind, param, r, seq_values(tree, annos, memo), w)
+        if bad:
+            fails.append((k, bad[0], bad[1], r))
+    return fails
+
+
+def seq_subject(tree):
+    """the bit-vector term an item is about (the non-constant side of a comparison)"""
+    if tree[0] == "cmp":
+        return tree[3] if tree[2][0] == "const" else tree[2]
+    return tree
+
+
+def seq_qname(kind, tree):
+    if tree[0] == "cmp":
+        return tree[1] if kind == "abs" else kind
+    return "convert" if kind == "abs" else kind
+
+
+def seq_outer(t):
+    return t[1] if t[0] in ("bin", "un") else {"var": "variable"}.get(t[0], t[0])
+
+
+def seq_shrink(annos, items, k, fkind):
+    """a shorter sequence ending in item k that still fails the same way: one earlier item if one suffices, else halves"""
+    last = items[k]
+
+    def still(seq):
+        return any(f[0] == len(seq) - 1 and f[1] == fkind for f in seq_run(annos, seq, only_last=True))
+    for j in range(k):
+        if still([items[j], last]):
+            return [items[j], last]
+    pre = list(items[:k])
+    n = 2
+    budget = 120
+    while len(pre) >= 2 and budget > 0:
+        size = max(1, len(pre) // n)
+        for i in range(0, len(pre), size):
+            cand = pre[:i] + pre[i + size:]
+            budget -= 1
+            if still(cand + [last]):
+                pre = cand
+                n = max(n - 1, 2)
+                break
+        else:
+            if size == 1:
+                break
+            n = min(len(pre), n * 2)
+    return pre + [last]
+
+
+def seq_show(annos, items):
+    def one(kind, tree, param):
+        if kind == "abs":
+            return show(tree)
+        if kind in ("min", "max"):
+            return "%s(%s, signed=%s)" % (kind, show(tree), param)
+        if kind in ("eval", "sol"):
+            return "%s(%s, %d)" % ({"sol": "solution"}.get(kind, kind), show(tree), param)
+        return "%s(%s)" % ({"card": "cardinality"}.get(kind, kind), show(tree))
+    return "v0 = %s: " % ", ".join(vsa.show(a) for a in annos) + "; then ".join(one(*i) for i in items)
